@@ -430,6 +430,17 @@ func runC16(args []string) int {
 				P, Q *wpt
 			}{"(x,y)+(zeta x,-y)", P, Z})
 		}
+		// points with a zero coordinate are ordinary points, not the point at infinity (0,0): x = 0 exists when b is a square
+		// (P-256, P-384), and (0,0) itself must never be confused with them
+		if y0 := new(big.Int).ModSqrt(wc.b, wc.p); y0 != nil && y0.Sign() != 0 {
+			P0 := &wpt{big.NewInt(0), y0}
+			for _, cl := range []struct {
+				name string
+				P, Q *wpt
+			}{{"(0,sqrt b)+Q", P0, Q}, {"P+(0,sqrt b)", P, P0}, {"(0,sqrt b) doubled", P0, P0}, {"(0,sqrt b)+(0,-sqrt b)", P0, wc.neg(P0)}, {"(0,sqrt b)+inf", P0, nil}} {
+				classes = append(classes, cl)
+			}
+		}
 		for _, cl := range classes {
 			add(ri, &swJob{op: "AddUnified", P: cl.P, Q: cl.Q, want: wc.add(cl.P, cl.Q), expectOK: true, class: cl.name})
 		}
@@ -957,6 +968,7 @@ func runC16(args []string) int {
 		writeFile(o.Out, fmt.Sprintf("cases_C16_%d.v", i), hdr+fmt.Sprintf("Definition wcases : list (Z * Z * (Z * Z) * (Z * Z) * (Z * Z) * (Z * Z)) := %s.\nDefinition mism_addunified_%d := Eval vm_compute in wmism 0 wcases.\nPrint mism_addunified_%d.\n", coqlistNL(part), i, i))
 	}
 	rep.CoqCases = len(wcases)
+	c16EdDSA(rep, rng)
 	rep.Write(o.Out)
 	return 0
 }
